@@ -68,6 +68,9 @@ package items
 //@   ensures [earliest] imp(!some(k, 0, len(this.Items), isShiftA(cand(this, symbol, k))) && isReduceA(act1), all(k, 0, len(this.Items), imp(isReduceA(cand(this, symbol, k)), as(act1, action.Reduce) <= as(cand(this, symbol, k), action.Reduce))))
 //@   # C04: conflicts are reported exactly when two items propose different actions
 //@   ensures [conflicts] (len(conflicts) > 0) == some(j, 0, len(this.Items), some(k, 0, len(this.Items), compete(cand(this, symbol, j), cand(this, symbol, k))))
+//@   ensures [kind] typeis(act1, action.Accept) || typeis(act1, action.Error) || typeis(act1, action.Reduce) || typeis(act1, action.Shift)
+//@   ensures [reduce-index] imp(isReduceA(act1), some(k, 0, len(this.Items), as(act1, action.Reduce) == this.Items[k].ProdIdx))
+//@   assigns nothing
 //@   loop 1
 //@     invariant [map] conflictMap != nil && conflictMap >= old(alloc())
 //@     invariant [kind] typeis(act1, action.Accept) || typeis(act1, action.Error) || typeis(act1, action.Reduce) || typeis(act1, action.Shift)
@@ -79,6 +82,7 @@ package items
 //@     invariant [conflicts] nonempty(conflictMap) == some(j, 0, range_i1, some(k, 0, range_i1, compete(cand(this, symbol, j), cand(this, symbol, k))))
 //@   loop 2
 //@     invariant [count] len(conflicts) == range_i2
+//@     invariant [fresh] cap(conflicts) == 0 || arr(conflicts) >= old(alloc())
 //@
 //@ # ---- the LR(1) closure (C02, C04): the returned set is closed under the closure rule ----
 //@ # The key of an item inside a set: a function of production index, dot position and look-ahead (rendered with
@@ -371,3 +375,14 @@ package items
 //@     step [gto-env] gto.Symbols == s && gto.FS == firstSets && gto.Prods == g.SyntaxPart.ProdList
 //@     step [moves] movesAny(I, X) == (len(gto.Items) > 0)
 //@     step [target] imp(len(gto.Items) > 0, has(I.Transitions, X) && 0 <= I.Transitions[X] && I.Transitions[X] < len(S.sets) && targetHolds(I, X, S.sets[I.Transitions[X]]))
+//@
+//@ func (*ItemSets).Set
+//@   prop C04
+//@   requires [index] this != nil && 0 <= SetNo && SetNo < len(this.sets)
+//@   ensures [value] result == this.sets[SetNo]
+//@   assigns nothing
+//@ func (*ItemSets).Size
+//@   prop C04
+//@   requires [this] this != nil
+//@   ensures [value] result == len(this.sets)
+//@   assigns nothing
